@@ -46,6 +46,10 @@ fixed("C14", "printed redirection lists keep their separators", "`declare -f` pr
 fixed("C13", "export -p escapes the characters", "`export -p` wrote raw values between double quotes; a value with a double quote, backslash, dollar or backquote did not read back")
 fixed("C13", "alias listing quotes an embedded single quote", "the alias listing printed an embedded single quote unescaped")
 fixed("C13", "leading ~ or # is quoted", "`printf %q`, `${v@Q}`, `set` and the xtrace printed a leading `~` or `#` bare (tilde expansion / comment on re-read)")
+fixed("C04", "read decodes UTF-8 input", "`read r <<<é` stored the two bytes as two Latin-1 characters")
+fixed("C06", "with an empty pattern leaves the value unchanged", "`${v/$p/X}` and `${v//$p/X}` with an empty pattern inserted X")
+fixed("C10", "backslash-newline in an unquoted here-document body", "a backslash-newline in an unquoted here-document body was kept verbatim")
+fixed("C10", "&> honours noclobber", "`&>f` truncated an existing file under set -C")
 fixed("C07", "hex, octal and oversized decimal arithmetic literals wrap", "`$((0x8000000000000000))`, `$((99999999999999999999))`, `$((0x))` were rejected")
 
 # ---------------------------------------------------------------------------------------------- C01
@@ -73,7 +77,7 @@ finding("C02-negated-return-in-subshell", "C02", "`( ! return )` inside a functi
 
 # ---------------------------------------------------------------------------------------------- C03
 finding("C03-err-trap-fires-twice", "C03", "the ERR trap fires twice for one failing command when errtrace is on or the failure is inside a brace group / eval",
-        all=["err-trap-count"], why="the ERR trap is raised by every enclosing pipeline; needs a 'already reported' marker threaded through execute")
+        all=["err-trap-count"], why=PINNED + " (errtrace.yaml 'errtrace with errexit in function'): a 20-line repair in Pipeline::execute (compound commands other than subshells do not re-report; return/exit are not failures) was written, made every enumerated case agree with bash, and was withdrawn because it turns that known_failure case into an unexpected pass")
 finding("C03-errexit-negated-group", "C03", "`{ ! { ! ko; }; }` under set -e exits: the exemption of a negated pipeline is not remembered through the enclosing compound command",
         all=["brush-exits-bash-continues"], why="errexit suppression is not propagated back out of compound commands")
 finding("C03-negated-loop-in-subshell", "C03", "`( ! while …; do ko; done )` under set -e: bash leaves the subshell at the failing command, brush keeps looping",
@@ -82,9 +86,6 @@ finding("C03-nounset-arith-and-transforms", "C03", "under set -u, arithmetic on 
         all=["nounset"], why=PINNED + " ('Special parameter $! does not error when no background jobs'); the rest needs a uniform unset check in every operator arm")
 
 # ---------------------------------------------------------------------------------------------- C04
-finding("C04-read-latin1", "C04", "`read` decodes input byte-wise: `read r <<<\"é\"` stores `Ã©`",
-        all=["ctx:read <<<", "sym:multibyte"], why="the reader works on single bytes; needs a UTF-8 decoder in InputReader")
-
 finding("C04-literal-words-split", "C04", "literal (unquoted, unexpanded) words are field-split by IFS: `IFS=a; echo banana` prints `b n n`, `IFS=-; set -f` no longer sets the option, `for w in anb` iterates twice under IFS=n",
         all=["ctx:literal-word"], why=PINNED + " (ifs.yaml 'IFS does not affect for loop literal words'); splitting is applied to whole expanded words rather than to expansion results only")
 
@@ -97,8 +98,6 @@ finding("C05-dq-star-empty-ifs", "C05", "`\"$*\"` with IFS='' joins the position
         all=["piece:dq-star", "ifs:empty"])
 
 # ---------------------------------------------------------------------------------------------- C06
-finding("C06-empty-pattern-replace", "C06", "`${v/$p/X}` / `${v//$p/X}` with an empty pattern insert X (bash leaves v unchanged)",
-        all=["pat:empty"])
 finding("C06-tilde-case-toggle", "C06", "`${v~}` / `${v~~}` are not recognised (printed literally)",
         all=["form:${v~}"])
 finding("C06-tilde-case-toggle2", "C06", "`${v~~}` not recognised", all=["form:${v~~}"])
@@ -162,10 +161,8 @@ finding("C09-declare-x-attr-combos", "C09", "`declare -x x` combined with -i/-l/
 finding("C09-unset-exported-a", "C09", "same for arrays", all=["act:unset-a"])
 
 # ---------------------------------------------------------------------------------------------- C10
-finding("C10-heredoc-backslash-newline", "C10", "a backslash-newline inside an unquoted here-document body is not removed as a line continuation",
-        all=["heredoc", "line:trailing-backslash"])
-finding("C10-noclobber-and-both", "C10", "`&>f` overwrites an existing file under noclobber",
-        all=["redir:&>f", "noclobber"])
+finding("C10-heredoc-continuation-before-delimiter", "C10", "in an unquoted here-document a body line ending in a backslash is joined with the next line only after the delimiter has been looked for: `a\\<newline>EOF` ends the document (bash reads on, the joined line `aEOF` is not the delimiter)",
+        all=["heredoc", "line:trailing-backslash"], why="the tokenizer's delimiter search would have to process continuations; the common case (continuation between ordinary body lines) was repaired")
 
 # ---------------------------------------------------------------------------------------------- C11
 finding("C11-nonfinal-compound-stage-inline", "C11", "a function, brace group, subshell or loop in a non-final pipeline position is executed inline while the pipeline is still being set up: with more data than the pipe holds (or an early-exit reader) the pipeline hangs",
